@@ -559,7 +559,7 @@ AN_KINDS = ['uniform', 'fullfact', 'gsd', 'pb', 'bb', 'lhs']
 
 def shards(tier, seed):
     nsh = 16 if tier == 'quick' else 32
-    n = 4 if tier == 'quick' else 30
+    n = 4 if tier == 'quick' else 16
     return [{'seed': seed * 100003 + 15485863 * k + 3, 'n': n} for k in range(nsh)]
 
 
